@@ -423,6 +423,13 @@ class LTop(Component):
       elif how[0] == "r": s.ws.reverse()
       else: s.ws.pop(0)
       s.ws += [Wire(8)]
+    elif how in ("reverse-only", "del-first-only", "swap-only"):
+      # the list is changed IN PLACE after it was assigned and never handed over again
+      s.regs = [LReg() for _ in range(n)]
+      s.ws = [Wire(8) for _ in range(3)]
+      if how[0] == "r": s.ws.reverse()
+      elif how[0] == "d": del s.ws[0]
+      else: s.ws[0], s.ws[2] = s.ws[2], s.ws[0]
     elif how == "append-spare":
       # the late elements are not touched again by construct()
       s.regs = [LReg() for _ in range(n)]
@@ -445,7 +452,8 @@ def run_listbuild_case(sh, case):
   from vlib import specgen as G
   rng = sh.rng("listbuild", case)
   how = rng.choice(["assign-complete", "plus-equal", "plus-equal", "plus-equal-wires", "append-after", "setitem-after", "append-spare", "setitem-spare", "overwrite-with-int",
-                    "insert-then-plus-equal", "reverse-then-plus-equal", "pop-then-plus-equal"])
+                    "insert-then-plus-equal", "reverse-then-plus-equal", "pop-then-plus-equal",
+                    "reverse-only", "del-first-only", "swap-only"])
   n = rng.randrange(2, 6)
   mod = G.load_source(LISTBUILD_SRC, "c14lb")
   try:
